@@ -5,7 +5,7 @@ use rssl::ast;
 #[derive(Clone, Debug, PartialEq)]
 pub struct Decl {
     pub name: String,
-    /// struct / enum / enum-value / global / function / parameter / local / member / method / namespace / cbuffer
+    /// struct / enum / enum-value / global / function / parameter / local / member / method / namespace / cbuffer / cbuffer-member
     pub kind: &'static str,
     /// scope path, e.g. "::Ns::" or "::fn3()" or "::fn3()/block2"
     pub scope: String,
@@ -145,7 +145,7 @@ impl Walker {
                     for m in &cb.members {
                         for def in &m.defs {
                             if let Some(n) = declarator_name(&def.declarator) {
-                                self.push(n, "global", scope);
+                                self.push(n, "cbuffer-member", scope);
                             }
                         }
                     }
@@ -610,6 +610,42 @@ pub fn written_array_parameters(m: &ast::Module) -> Vec<(String, String)> {
         }
     }
     fn visit(defs: &[ast::RootDefinition], out: &mut Vec<(String, String)>) {
+        for d in defs {
+            match d {
+                ast::RootDefinition::Function(f) => function(f, out),
+                ast::RootDefinition::Struct(sd) => {
+                    for member in &sd.members {
+                        if let ast::StructEntry::Method(f) = member {
+                            function(f, out);
+                        }
+                    }
+                }
+                ast::RootDefinition::Namespace(_, inner) => visit(inner, out),
+                _ => {}
+            }
+        }
+    }
+    let mut out = Vec::new();
+    visit(&m.root_definitions, &mut out);
+    out
+}
+
+/// First segments of the qualified names (`a::b::c`) used in expressions, with the function that uses them
+pub fn qualified_name_roots(m: &ast::Module) -> Vec<(String, String, String)> {
+    fn function(f: &ast::FunctionDefinition, out: &mut Vec<(String, String, String)>) {
+        let Some(body) = &f.body else { return };
+        for s in body {
+            each_stmt_expr(s, &mut |e| {
+                if let ast::Expression::Identifier(id) = e {
+                    if id.identifiers.len() >= 2 {
+                        let full: Vec<&str> = id.identifiers.iter().map(|x| x.node.as_str()).collect();
+                        out.push((id.identifiers[0].node.clone(), full.join("::"), f.name.node.clone()));
+                    }
+                }
+            });
+        }
+    }
+    fn visit(defs: &[ast::RootDefinition], out: &mut Vec<(String, String, String)>) {
         for d in defs {
             match d {
                 ast::RootDefinition::Function(f) => function(f, out),
